@@ -44,6 +44,7 @@ class Tracer(object):
         self.max_paths = max_paths
         self.atom = atom  # optional hook: (expr, path) -> True/False/None for non-folding atoms
         self.count = 0
+        self.pinned = set()  # names whose enumerated value survives assignments inside the traced code
 
     # -- evaluation
     def value(self, e, path):
@@ -151,6 +152,9 @@ class Tracer(object):
         if isinstance(s, ast.Assign) and len(s.targets) == 1 and isinstance(s.targets[0], ast.Name):
             v = self.value(s.value, p)
             name = s.targets[0].id
+            if name in self.pinned:
+                p.events.append(('stmt', s))
+                return [p]
             if v is not UNKNOWN and not isinstance(v, (list, dict, set, bytearray)):
                 p.env[name] = v
             else:
